@@ -1521,6 +1521,283 @@ def c08_delete_accounting_group(mir, ctx):
     return [g]
 
 
+# --------------------------------------------------------------------------
+# C12: the nested-loop kernel of Join::exec (inner and left joins, <= 2 x 2 rows)
+# --------------------------------------------------------------------------
+
+def c12_join_group(mir, ctx):
+    """Join::exec for the Inner and Left variants with both row loops unrolled (each block visited
+    at most 3 times: up to 2 left rows x 2 right rows), the two sub-selects / tables / expression
+    evaluation arbitrary, the join condition an uninterpreted boolean per pair."""
+    cands = [f for n, fs in mir.fns.items() for f in fs if n.endswith("::exec") and f.args and re.search(r"\bJoin\b", f.args[0][1])]
+    if len(cands) != 1:
+        raise EncodingError("Join::exec not found uniquely in the MIR dump (%d)" % len(cands))
+    fn = cands[0]
+    src = open(os.path.join(REPO, "src/internal/query.rs")).read()
+    jv = enum_variants(src, "Join")
+    from .mir_protocol import _confirm_query as _scenarios
+    g = Group("join_rows", ["query::Join::exec (Inner and Left; row loops unrolled)"], confirm=_scenarios,
+              note="for each left row in order and each right row in order the concatenated row (left cells first) is emitted exactly when "
+                   "the join condition holds for that pair; a left join additionally emits each left row that matched nothing once, after "
+                   "its right rows, starting with the left row's cells; nothing else is emitted")
+    gate = Group("join_condition_names", ["query::Join::exec (Inner and Left; loops unrolled)"], confirm=_scenarios,
+                 note="on every path that evaluates the join condition, every column name the condition mentions (<= 2 names) was looked up "
+                      "in the joined table and found beforehand (so the lookup in Row's Index<&str>, which panics, cannot miss)")
+    total = 0
+    for vname in ("Inner", "Left"):
+        if vname not in jv:
+            raise EncodingError("Join has no variant %s" % vname)
+        lens = {}
+        it_models, what_of, coll = iter_models(ctx, lens)
+
+        def m_cond(ex, callee, args, pc, events):
+            b = ctx.fresh_bool("join_condition")
+            return [(pc, events + [("cond", b.term)], BoolV(b.term))]
+
+        def m_push(ex, callee, args, pc, events):
+            return [(pc, events + [("push", what_of(ex, args[1]))], TupleV([]))]
+
+        def m_desc(fmt, n):
+            return lambda ex, callee, args, pc, events: [(pc, events, OpaqueV(fmt % tuple(what_of(ex, a) for a in args[:n])))]
+
+        def m_names(ex, callee, args, pc, events):
+            return [(pc, events + [("names", what_of(ex, args[0]))], OpaqueV("names(%s)" % coll(what_of(ex, args[0]))))]
+
+        def m_has(ex, callee, args, pc, events):
+            b = ctx.fresh_bool("has_column")
+            return [(pc, events + [("has", coll(what_of(ex, args[0])), what_of(ex, args[1]), b.term)], BoolV(b.term))]
+
+        def m_eval(ex, callee, args, pc, events):
+            return [(pc, events + [("eval", coll(what_of(ex, args[0])), what_of(ex, args[1]))], OpaqueV("value#%d" % len(events)))]
+
+        def m_row(ex, callee, args, pc, events):
+            return [(pc, events, OpaqueV("row(%s)" % coll(what_of(ex, args[0]))))]
+
+        def m_same(ex, callee, args, pc, events):
+            return [(pc, events, OpaqueV(coll(what_of(ex, args[0]))))]
+
+        models = [
+            (r"Expr::column_names$", m_names), (r"Table::has_column$", m_has), (r"Expr::eval$", m_eval), (r"Row::new$", m_row),
+            (r"<Rc<Table> as Clone>::clone$", m_same),
+            (r"Value::to_bool$", m_cond), (r"Vec::<Vec<ValueRef>>::push$", m_push),
+            (r"as Iterator>::chain::<", m_desc("chain(%s,%s)", 2)), (r"as Iterator>::cloned::<", m_desc("%s", 1)),
+            (r"as Iterator>::map::<", m_desc("map(%s)", 1)), (r"as Iterator>::collect::<Vec<ValueRef>>$", m_desc("vec(%s)", 1)),
+        ] + it_models
+        ex = M.Exec(mir, ctx, models=models, havoc_unknown=True, max_paths=200000)
+        ex.max_revisit = 3
+        ex.no_inline = [r"Select::exec", r"Rows::", r"Table::", r"Row::new$", r"Expr::eval$", r"StringPool::", r"closure", r"Column::"]
+        join = EnumV(variant=jv.index(vname), fields=[OpaqueV("lhs"), OpaqueV("rhs"), OpaqueV("on")])
+        outs = ex.run(fn, [join, OpaqueV("comp"), OpaqueV("pool"), OpaqueV("tables")])
+        # ---- name gate: a join condition is evaluated only after every column name it mentions was
+        # looked up in the joined table and found
+        for k, o in enumerate(outs):
+            evs = o.events
+            first = next((n for n, e in enumerate(evs) if e[0] == "eval"), None)
+            if first is None:
+                continue
+            _e, cond, row = evs[first]
+            before = evs[:first]
+            tag = "%s_%d" % (vname, k)
+            ncoll = "names(%s)" % cond
+            listed = any(e[0] == "names" and coll(e[1]) == cond for e in before)
+            done = any(e[0] == "iter-done" and e[1].endswith("|" + ncoll) for e in before)
+            if not (listed and done):
+                gate.queries.append(Query("gate_%s" % tag, o.pc, "unsat",
+                                          note="%s join: the join condition is evaluated although its column names were never (all) looked up in the joined table; "
+                                               "an unknown name reaches the panicking Row index" % vname))
+                continue
+            for e in before:
+                if e[0] == "elem" and e[1].startswith(ncoll + "["):
+                    hs = [h for h in before if h[0] == "has" and h[2] == e[1]]
+                    if not hs:
+                        gate.queries.append(Query("gate_%s_%s" % (tag, e[1][-3:]), o.pc, "unsat", note="%s join: a column name of the condition is not looked up before evaluation" % vname))
+                    for h in hs:
+                        gate.queries.append(Query("gate_%s_%d" % (tag, len(gate.queries)), o.pc + [s_not(h[3])], "unsat",
+                                                  note="%s join: the condition is evaluated although one of its column names is not a column of the joined table" % vname))
+                        if row.startswith("row(") and h[1] != row[4:-1]:
+                            gate.queries.append(Query("gate_tbl_%s_%d" % (tag, len(gate.queries)), o.pc, "unsat",
+                                                      note="%s join: names are looked up in %s but the condition is evaluated on a row of %s" % (vname, h[1], row[4:-1])))
+            gate.witness.append(Query("wg_%s" % tag, o.pc, "sat"))
+        for k, o in enumerate(outs):
+            if o.kind != "return" or not (isinstance(o.value, EnumV) and o.value.variant in (0, "Ok")):
+                continue
+            evs = o.events
+            # the two row collections: results of the two into_table_and_values calls, in order
+            srcs = []
+            for e in evs:
+                if e[0] == "elem":
+                    base = re.sub(r"\[\d+\]$", "", e[1])
+                    if "into_table_and_values" in base and base not in srcs and not re.search(r"\]\[", e[1]):
+                        srcs.append(base)
+            if len(srcs) < 2:
+                continue        # one side empty on this path: no pair was visited
+            left, right = srcs[0], srcs[1]
+            total += 1
+            ok, why, queries = True, "", []
+            cur_i = cur_j = None
+            pushed_in_outer = False
+            pending = None      # (i, j, cond term, pushed?)
+
+            def close_pair():
+                # decide the finished pair
+                if pending is None:
+                    return
+                i, j, b, pushed = pending
+                if b is None:
+                    queries.append((o.pc, "the join condition was not evaluated for pair (%s, %s)" % (i, j)))
+                elif pushed:
+                    queries.append((o.pc + [s_not(b)], "pair (%s, %s) is emitted although the join condition is false" % (i, j)))
+                else:
+                    queries.append((o.pc + [b], "pair (%s, %s) is not emitted although the join condition holds" % (i, j)))
+
+            def close_outer():
+                if cur_i is not None and vname == "Left" and not pushed_in_outer and not padded_seen[0]:
+                    queries.append((o.pc, "left join: left row %s matched nothing but is not emitted with null padding" % cur_i))
+
+            padded_seen = [False]
+            for e in evs:
+                if e[0] == "elem" and re.fullmatch(re.escape(left) + r"\[\d+\]", e[1]):
+                    close_pair()
+                    pending = None
+                    close_outer()
+                    cur_i, cur_j, pushed_in_outer = e[1], None, False
+                    padded_seen[0] = False
+                elif e[0] == "elem" and re.fullmatch(re.escape(right) + r"\[\d+\]", e[1]):
+                    close_pair()
+                    cur_j = e[1]
+                    pending = (cur_i, cur_j, None, False)
+                elif e[0] == "cond" and pending is not None:
+                    pending = (pending[0], pending[1], e[1], pending[3])
+                elif e[0] == "push":
+                    item = e[1]
+                    if pending is not None and not pending[3] and cur_j is not None and ("|" + cur_j) in item and item.find("|" + cur_i) < item.find("|" + cur_j) and ("|" + cur_i) in item:
+                        pending = (pending[0], pending[1], pending[2], True)
+                        pushed_in_outer = True
+                    elif vname == "Left" and cur_i is not None and ("|" + cur_i) in item and right not in item.replace(cur_i, ""):
+                        # the null-padded row for an unmatched left row
+                        close_pair()
+                        pending = None
+                        if pushed_in_outer or padded_seen[0]:
+                            queries.append((o.pc, "left join: left row %s is emitted with null padding although it matched (or twice)" % cur_i))
+                        padded_seen[0] = True
+                    else:
+                        queries.append((o.pc, "a row is emitted that is not the concatenation left-then-right of the visited pair: %s" % item[:160]))
+            close_pair()
+            close_outer()
+            for n, (qpc, note) in enumerate(queries):
+                g.queries.append(Query("%s_%d_%d" % (vname, k, n), qpc, "unsat", note="%s join: %s" % (vname, note)))
+            g.witness.append(Query("w_%s_%d" % (vname, k), o.pc, "sat"))
+    if total < 8:
+        raise EncodingError("join kernel: only %d paths visit a pair of rows" % total)
+    return [g, gate]
+
+
+def c12_select_gate_group(mir, ctx):
+    """Select::exec up to the point where it filters / projects, its validation loops unrolled
+    (<= 2 requested columns, <= 2 names in the condition), the FROM clause an arbitrary result."""
+    cands = [f for n, fs in mir.fns.items() for f in fs if n.endswith("::exec") and f.args and re.search(r"\bSelect\b", f.args[0][1])]
+    if len(cands) != 1:
+        raise EncodingError("Select::exec not found uniquely in the MIR dump (%d)" % len(cands))
+    fn = cands[0]
+    from .mir_protocol import _confirm_query as _scenarios, struct_fields
+    lens = {}
+    it_models, what_of, coll = iter_models(ctx, lens)
+
+    def m_names(ex, callee, args, pc, events):
+        return [(pc, events + [("names", what_of(ex, args[0]))], OpaqueV("names(%s)" % coll(what_of(ex, args[0]))))]
+
+    def m_has(ex, callee, args, pc, events):
+        b = ctx.fresh_bool("has_column")
+        return [(pc, events + [("has", coll(what_of(ex, args[0])), what_of(ex, args[1]), b.term)], BoolV(b.term))]
+
+    def m_lookup(ex, callee, args, pc, events):
+        b = ctx.fresh_bool("found")
+        i = ctx.fresh_int("col_index", "usize")
+        name = what_of(ex, args[1])
+        return [(pc + [b.term], events + [("lookup", name, True, i.term)], EnumV(variant=1, fields=[i])),
+                (pc + [s_not(b.term)], events + [("lookup", name, False, None)], EnumV(variant=0, fields=[]))]
+
+    def m_same(ex, callee, args, pc, events):
+        return [(pc, events, OpaqueV(what_of(ex, args[0])))]
+
+    def m_push(ex, callee, args, pc, events):
+        v = ex.load(args[1])
+        return [(pc, events + [("push-index", getattr(v, "term", repr(v)))], TupleV([]))]
+
+    def m_retain(ex, callee, args, pc, events):
+        return [(pc, events + [("filter",)], TupleV([]))]
+
+    models = [
+        (r"Expr::column_names$", m_names), (r"Table::has_column$", m_has), (r"Table::index_for_column_name$", m_lookup),
+        (r"String::as_str$|<String as Deref>::deref$", m_same), (r"Vec::<usize>::push$", m_push), (r"Vec::<Vec<ValueRef>>::retain::<", m_retain),
+    ] + it_models
+    ex = M.Exec(mir, ctx, models=models, havoc_unknown=True, max_paths=100000,
+                stop_at=lambda f, bb, term: "done" if re.search(r"Rows::<'_>::new\(", term) else None)
+    ex.max_revisit = 3
+    ex.no_inline = [r"Join::exec", r"::exec::<", r"Rows::", r"Table::(new|name|columns|long_string_refs)$", r"Row::new$", r"Expr::eval$", r"closure", r"Column::"]
+    qsrc = open(os.path.join(REPO, "src/internal/query.rs")).read()
+    sfields = struct_fields(qsrc, "Select")
+    ex.new_obj("select", [OpaqueV("select." + f) for f in sfields])
+    outs = ex.run(fn, [M.ObjV("select"), OpaqueV("comp"), OpaqueV("pool"), OpaqueV("tables")])
+    g = Group("select_names", ["query::Select::exec (validation loops unrolled)"], confirm=_scenarios,
+              note="on every path on which Select::exec goes on to filter or to build its result: every requested column name (<= 2) was looked "
+                   "up in the source table and found, the projection indices are those lookups' results in the requested order, and every "
+                   "name in the WHERE condition (<= 2) was looked up and found before the filter runs")
+    nfilter = nproj = 0
+    for k, o in enumerate(outs):
+        evs = o.events
+        reached = (o.kind == "stopped" and o.msg == "done")
+        fpos = next((n for n, e in enumerate(evs) if e[0] == "filter"), None)
+        if fpos is not None:
+            nfilter += 1
+            before = evs[:fpos]
+            names = [e for e in before if e[0] == "names"]
+            ok = False
+            if names:
+                ncoll = "names(%s)" % coll(names[0][1])
+                done = any(e[0] == "iter-done" and e[1].endswith("|" + ncoll) for e in before)
+                ok = done
+                for e in before:
+                    if e[0] == "elem" and e[1].startswith(ncoll + "["):
+                        hs = [h for h in before if h[0] == "has" and h[2] == e[1]]
+                        if not hs:
+                            ok = False
+                        for h in hs:
+                            g.queries.append(Query("where_%d_%d" % (k, len(g.queries)), o.pc + [s_not(h[3])], "unsat",
+                                                   note="the WHERE condition is evaluated although one of its column names is not a column of the source table"))
+            if not ok:
+                g.queries.append(Query("where_gate_%d_%d" % (k, len(g.queries)), o.pc, "unsat", note="the filter runs although the WHERE condition's column names were not all looked up first"))
+        if reached:
+            # requested names: elements of select.column_names visited before the end
+            req = [e[1] for e in evs if e[0] == "elem" and re.search(r"select\.column_names\[\d+\]$", e[1])]
+            req = sorted(set(req), key=req.index)
+            done = any(e[0] == "iter-done" and "select.column_names" in e[1] for e in evs)
+            if not done:
+                g.queries.append(Query("proj_gate_%d" % k, o.pc, "unsat", note="the result is built although the requested column names were not all visited"))
+            looked = [e for e in evs if e[0] == "lookup"]
+            pushes = [e[1] for e in evs if e[0] == "push-index"]
+            want = []
+            for r in req:
+                ls = [l for l in looked if l[1] == r]
+                if not ls or not ls[0][2]:
+                    g.queries.append(Query("proj_missing_%d_%d" % (k, len(g.queries)), o.pc, "unsat", note="a requested column name that the table lacks does not stop the select: %s" % r))
+                else:
+                    want.append(ls[0][3])
+            if pushes != want:
+                g.queries.append(Query("proj_order_%d" % k, o.pc, "unsat", note="the projection indices %r are not the looked-up indices of the requested names in order %r" % (pushes, want)))
+            if req:
+                nproj += 1
+            g.queries.append(Query("ok_%d" % k, ["false"], "unsat"))
+            g.witness.append(Query("w_%d" % k, o.pc, "sat"))
+    if nfilter < 2 or nproj < 2:
+        raise EncodingError("select gate: %d paths reach the filter, %d paths build a projection" % (nfilter, nproj))
+    return [g]
+
+
+def c12_all(mir, ctx):
+    return c12_join_group(mir, ctx) + c12_select_gate_group(mir, ctx)
+
+
 def c08_all(mir, ctx):
     from .mir_protocol import protocol_groups
     return protocol_groups(mir, ctx, {"drop_table"}) + c08_update_accounting_group(mir, ctx) + c08_delete_accounting_group(mir, ctx)
@@ -1535,7 +1812,7 @@ def _proto(which):
 
 BUILDERS = {"C18": c18_groups, "C19": c19_groups, "C14": c14_groups, "C20": c20_all, "C09": c20_groups,
             "C01": _proto({"mutators", "finish", "close"}), "C10": _proto({"mutators", "finish"}),
-            "C15": _proto({"finish", "close"}), "C16": _proto({"readonly"}), "C08": c08_all, "C04": _proto({"reject"}), "C11": c11_all, "C07": c07_insert_gate_group}
+            "C15": _proto({"finish", "close"}), "C16": _proto({"readonly"}), "C08": c08_all, "C04": _proto({"reject"}), "C11": c11_all, "C07": c07_insert_gate_group, "C12": c12_all}
 
 
 def native_confirm_c18(vals, work):
